@@ -101,7 +101,11 @@ def run(ctx):
         cube = np.where(cube == -9999, -9999, np.round(cube))
         win = [(None, None), ("2003-01-01", None), (None, "2005-12-31"), ("2002-06-01", "2006-06-30")][it % 4]
         acc.append(dict(cube=cube.tolist(), dtype=dt, nodata=-9999.0, time=t, groups=months if it % 3 != 2 else None, begin=win[0], end=win[1]))
-    res, log = core.run_impl("c07_impl.py", dict(cases=cases, accessor=acc), timeout=3000)
+    kw_cube = rng.gamma(2.0, 40.0, size=(2, 2, 24))
+    kw_cube[rng.random(kw_cube.shape) < 0.2] = 0
+    kw_cube[rng.random(kw_cube.shape) < 0.1] = -9999
+    kw_cube = np.where(kw_cube == -9999, -9999, np.round(kw_cube))
+    res, log = core.run_impl("c07_impl.py", dict(cases=cases, accessor=acc, cubes=[dict(cube=kw_cube.tolist(), dtype="int16", nodata=-9999.0)]), timeout=3000)
     if res is None:
         ctx.violation("implementation run failed", dict(kind="impl-crash", log=log[-3000:]), found_input=False)
         return
@@ -133,6 +137,12 @@ def run(ctx):
         if "tables" in r:
             coq.append(coq_case(c, r, res["k06"], res["k14"]))
             meta.append(m)
+    for r in (res.get("cubes") or []):
+        if "error" in r:
+            spec_fail.append((dict(kind="cube", n=10 ** 6), "spi on a cube raised %s" % r["error"]))
+        elif r.get("kw_nodata0_equal") is not True or not r.get("acc_equal"):
+            spec_fail.append((dict(kind="cube", n=10 ** 6, cube=kw_cube.tolist()), "spi(nodata=0) with a missing / different nodata attribute differs from the kernel "
+                              "run with nodata 0 (%s), or the accessor differs from the kernel (%s)" % (r.get("kw_nodata0_equal"), r.get("acc_equal"))))
     acc_cmp = 0
     for a, r in zip(acc, res.get("accessor", [])):
         m = dict(n=10 ** 6, kind="accessor", dtype=a["dtype"], groups="calendar months" if a["groups"] else None, begin=a["begin"], end=a["end"])
